@@ -10,6 +10,7 @@ import (
 	"bytes"
 	"encoding/binary"
 	"io"
+	"math"
 	"os"
 	"path"
 	"strings"
@@ -46,6 +47,8 @@ func (h *NFSProcedureHandler) handleCreate(body io.Reader, reply *RPCReply, auth
 	newUID := authCtx.EffectiveUID
 	newGID := authCtx.EffectiveGID
 	var isExclusive bool
+	var setSize bool
+	var newSize uint64
 	if createHow == 0 || createHow == 1 {
 		sattr, err := decodeSattr3(body)
 		if err != nil {
@@ -54,6 +57,7 @@ func (h *NFSProcedureHandler) handleCreate(body io.Reader, reply *RPCReply, auth
 		if sattr.SetMode {
 			mode = sattr.Mode
 		}
+		setSize, newSize = sattr.SetSize, sattr.Size
 		// Only allow explicit UID/GID override if caller is root (not squashed)
 		if sattr.SetUID && authCtx.EffectiveUID == 0 {
 			newUID = sattr.UID
@@ -91,7 +95,35 @@ func (h *NFSProcedureHandler) handleCreate(body io.Reader, reply *RPCReply, auth
 		Gid:  newGID,
 	}
 
-	newNode, err := h.server.handler.Create(node, name, attrs)
+	// RFC 1813 3.3.8: CREATE never recreates an object that already has the
+	// name. Create() goes through the filesystem's Create, which truncates an
+	// existing file (and follows a symbolic link), so existing objects are
+	// handled here: GUARDED fails with EXIST, as does any mode when the name is
+	// held by something that is not a regular file; UNCHECKED and EXCLUSIVE on
+	// an existing regular file succeed with that file and leave its data alone
+	// unless the client explicitly asked for a size.
+	var newNode *NFSNode
+	existingPath := path.Join(node.path, name)
+	if existingInfo, lerr := h.server.handler.fs.Lstat(existingPath); lerr == nil {
+		if createHow == 1 || !existingInfo.Mode().IsRegular() {
+			var buf bytes.Buffer
+			xdrEncodeUint32(&buf, NFSERR_EXIST)
+			if wccErr := encodeWccData(&buf, dirPreAttrs, dirPreAttrs); wccErr != nil {
+				return nfsErrorWithWcc(reply, NFSERR_EXIST), nil
+			}
+			reply.Data = buf.Bytes()
+			return reply, nil
+		}
+		if setSize && !isExclusive && newSize <= uint64(math.MaxInt64) {
+			if terr := h.server.handler.fs.Truncate(existingPath, int64(newSize)); terr != nil {
+				return nfsErrorWithWcc(reply, mapError(terr)), nil
+			}
+		}
+		h.server.handler.attrCache.Invalidate(existingPath)
+		newNode, err = h.server.handler.Lookup(existingPath)
+	} else {
+		newNode, err = h.server.handler.Create(node, name, attrs)
+	}
 	if err != nil {
 		// For EXCLUSIVE creates, if file already exists, return success
 		// (simplified idempotent behavior per RFC 1813 - full verifier comparison not implemented)
